@@ -77,6 +77,8 @@ def check_result_guard(f, call_bb, targets=None, start=0, extra_cut_edges=()):
     t = f.term(call_bb)
     cname = (callee_of(t) or {}).get("name", "?")
     if not checks:
+        if delegated_result_guard(f, call_bb):
+            return True, "the function returns %s()'s result through .map / .map_err only: Ok only if %s() returned Ok" % (cname, cname)
         return False, "result of %s() at %s is never tested (dropped, `let _`, `.ok()` or unwrapped)" % (
             cname, ir.line_of(t["sp"]["at"]))
     pass_edges, fail_edges = [], []
@@ -130,7 +132,17 @@ def option_switches_on_field(f, field):
     out = []
     for bi, b in enumerate(f.blocks):
         for s in b["s"]:
-            if s["k"] == "assign" and s["rv"][0] == "discr" and field in ir.place_fields(s["rv"][1]):
+            direct = s["k"] == "assign" and s["rv"][0] == "discr" and field in ir.place_fields(s["rv"][1])
+            via = False
+            if s["k"] == "assign" and s["rv"][0] == "discr" and not direct and len(s["rv"][1]) == 1:
+                # `if let Some(x) = self.field.as_ref()`: the discriminant of an Option obtained from the
+                # field through as_ref / as_mut / as_deref (shape-preserving views)
+                for d in f.defs(s["rv"][1][0]):
+                    if d["kind"] == "call" and (callee_of(d["term"]) or {}).get("name") in ("as_ref", "as_mut", "as_deref", "as_deref_mut") and d["term"]["a"]:
+                        sl = f.slice_of_operand(d["term"]["a"][0], at=(d["bb"], f.INF))
+                        if any(field in ir.place_fields(pl) for pl in sl["places"]):
+                            via = True
+            if direct or via:
                 dl = s["p"][0]
                 for u in f.uses(dl):
                     if u["kind"] == "switch":
@@ -167,7 +179,58 @@ def ok_payload_slice(f):
         pl = op_place(o)
         if pl:
             sl["places"].append(pl)
+    # a Result returned through Err-preserving combinators: `r.map(|..| payload).map_err(..)`; the Ok
+    # payload is produced by the `map` closure from its captures
+    for e in f.exits():
+        if not e["kind"].startswith("call:"):
+            continue
+        t = f.term(e["bb"])
+        seen = set()
+        while t is not None and (callee_of(t) or {}).get("name") in ERR_PRESERVING and t.get("_bb") not in seen:
+            seen.add(t.get("_bb"))
+            if callee_of(t)["name"] == "map" and len(t["a"]) == 2 and op_local(t["a"][1]) is not None:
+                one = f.slice_of_operand(t["a"][1], at=(t["_bb"], f.INF))
+                for k in ("locals", "calls", "args", "closures"):
+                    sl[k] |= one[k]
+                for k in ("places", "consts", "aggs"):
+                    sl[k] += one[k]
+            nxt = None
+            rl = op_local(t["a"][0]) if t["a"] else None
+            if rl is not None:
+                for x in f.copy_chain(rl):
+                    for d in f.defs(x):
+                        if d["kind"] == "call":
+                            nxt = d["term"]
+            t = nxt
     return sl
+
+
+ERR_PRESERVING = ("map", "map_err")
+
+
+def delegated_result_guard(f, call_bb):
+    """the Result of the call at call_bb is returned through Err-preserving combinators only
+    (`.map(..)`, `.map_err(..)`): the function can return Ok only if that call returned Ok."""
+    t = f.term(call_bb)
+    if not t.get("dest"):
+        return False
+    cur = {t["dest"][0]}
+    frontier = set(cur)
+    for _ in range(6):
+        nxt = set()
+        for bi, t2 in f.calls():
+            c = callee_of(t2)
+            if c and c.get("name") in ERR_PRESERVING and t2["a"] and op_local(t2["a"][0]) is not None and \
+                    f.copy_chain(op_local(t2["a"][0])) & frontier and t2.get("dest"):
+                if t2["dest"] == [0]:
+                    # every accepting exit must be this delegated return
+                    oks = f.ok_exit_blocks()
+                    return all(b == bi for b in oks)
+                nxt.add(t2["dest"][0])
+        if not nxt:
+            break
+        frontier = nxt
+    return False
 
 
 def call_before(f, bb_a, bb_b):
